@@ -83,6 +83,8 @@ TEnd ==
           ELSE /\ ps' = ps
                /\ Count(46)
                /\ Verdict(e.result = "ok" \/ IsErr(e.result), <<case, "load_result", e.result, e.msg>>)
+       /\ Verdict(e.peak_kib <= 65536 + 8 * e.len /\ e.refused_kib = 0,
+                  <<case, "memory_bound", "peak_kib", e.peak_kib, "largest_request_kib", e.maxreq_kib, "refused_kib", e.refused_kib, "input_bytes", e.len>>)
   /\ UNCHANGED case
 
 TTwice ==
